@@ -8,6 +8,14 @@ os.environ['VERIF_TIER'] = spec['tier']
 hs = fw.load_harnesses(spec['pid'], spec['tier'])
 h = [x for x in hs if x.name == spec['hname']][0]
 mod = fw.load_mod(spec['ll'])
-r = run_native(mod, spec['so'], lambda N: h.fn(N, h.jobs[spec['jobi']]), spec['inputs'], h.mode)
-r.pop('observations', None)
-print(json.dumps(r, default=str))
+if 'batch' in spec:
+    # differential validation: several test inputs in one process (the caller falls back to one process per input if this one dies)
+    out = []
+    for (jobi, inputs) in spec['batch']:
+        try: out.append(run_native(mod, spec['so'], (lambda j: lambda N: h.fn(N, h.jobs[j]))(jobi), inputs, h.mode))
+        except Exception as e: out.append(dict(status='error', msg=str(e)))
+    print(json.dumps(out, default=str))
+else:
+    r = run_native(mod, spec['so'], lambda N: h.fn(N, h.jobs[spec['jobi']]), spec['inputs'], h.mode)
+    if not spec.get('keep_obs'): r.pop('observations', None)
+    print(json.dumps(r, default=str))
